@@ -1,4 +1,5 @@
 import RLV.Model.Core
+import RLV.Model.Utf8
 namespace RLV.Hist
 open RLV.Core
 
@@ -183,5 +184,49 @@ def walk (s : St) (pos : Int) : G St := do
     match getLine s.src (n - s.hpos) with
     | some l => return setLineCursorMatch s l
     | none => return s                         -- error hint, buffer untouched
+
+end RLV.Hist
+
+namespace RLV.Hist
+open RLV RLV.Core
+
+/-- the search text of `Sources.match`: the match line as a Go string, cut at the cursor — `cline[:cur.Pos()]`
+slices BYTES with a rune position, as the code does -/
+def searchText (line : List Nat) (cpos : Int) : List Nat :=
+  if cpos < len line then (utf8 line).take cpos.toNat else utf8 line
+
+/-- literal infix test (`regexp.QuoteMeta` + `MatchString`) -/
+def isInfix (p t : List Nat) : Bool := (List.range (t.length + 1)).any fun i => p.isPrefixOf (t.drop i)
+
+/-- the test applied to one history line (bytes) -/
+def lineMatches (regex : Bool) (hist cline : List Nat) : Bool :=
+  if regex then isInfix cline hist
+  else !(decide (hist.length < cline.length) || (!cline.isEmpty && !cline.isPrefixOf hist))
+
+/-- the loop of `Sources.match` from position `histPos`: the index of the first matching entry -/
+def matchLoop (src : List (List Nat)) (cline : List Nat) (fwd regex : Bool) : Nat → Int → Option Int
+  | 0, _ => none
+  | f+1, p =>
+    let n : Int := src.length
+    if (if fwd then p < n else p > 0) then
+      let p' := if fwd then p + 1 else p - 1
+      match getLine src p' with
+      | none => none                 -- `GetLine` error: give up
+      | some h => if lineMatches regex (utf8 h) cline then some p' else matchLoop src cline fwd regex f p'
+    else none
+
+/-- `Sources.InsertMatch(line, cur, usePos, fwd, regexp)` with an explicit line and cursor to match
+against (the buffer itself when the command passes it) -/
+def insertMatch (s : St) (mline : List Nat) (mpos : Int) (usePos fwd regex : Bool) : St :=
+  let n : Int := s.src.length
+  let preservePoint := mpos ≠ 0
+  if fwd ∧ s.hpos ≤ -1 then { s with hpos := -1 } else
+  let start : Int := if usePos ∧ s.hpos > -1 then n - s.hpos else if fwd then -1 else n
+  match matchLoop s.src (searchText mline mpos) fwd regex (s.src.length + 2) start with
+  | none => if fwd then restoreLineBuffer s else s
+  | some p =>
+    let l := s.src.getD p.toNat []
+    let s := { s with hpos := n - p, line := l }
+    if preservePoint then { s with cur := curSet l s.cur mpos } else { s with cur := curSet l s.cur (len l) }
 
 end RLV.Hist
